@@ -33,7 +33,7 @@ func ParseTime(value string) (Time, error) {
 	var err error
 	value = strings.TrimPrefix(value, "@T")
 	for _, l := range timeLayouts {
-		if t, err = time.Parse(l, value); err == nil {
+		if t, err = parseInFixedZone(l, value); err == nil {
 			t, fl := normalizeFraction(t, layout(l))
 			return Time{t, fl}, nil
 		}
